@@ -306,6 +306,20 @@ def discharge(ctx, s, scope=None):
                         other = a[3] if a[2] == F else a[2]
                         if other.startswith('checked_shl(1,') and M in other:
                             return 'index below %s = 2^%s (dominating guard), so its logarithm is at most %s - 1' % (F, M, M)
+    if kind == 'split' and len(ops) == 2:
+        # split_at(X, n) panics when n > len(X): discharged by a dominating test n <= len(X)
+        n_c, x_len = canon(ops[1]), 'len(%s)' % canon(ops[0])
+        for a in known():
+            if a[0] == 'cmp' and a[1] == 'Le' and a[2] == n_c and a[3] == x_len:
+                return 'dominating condition %s <= %s' % (n_c, x_len)
+            if a[0] == 'cmp' and a[1] == 'Le' and a[3] == x_len and a[2].isdigit() and n_c.isdigit() and int(n_c) <= int(a[2]):
+                return 'dominating condition %s <= %s with constant split point %s' % (a[2], x_len, n_c)
+    if kind in ('assert:overflow:Mul', 'assert:overflow:Add', 'assert:overflow:Sub') and len(ops) == 2:
+        ca, cb = _const_int(_strip(ops[0])), _const_int(_strip(ops[1]))
+        if ca is not None and cb is not None:
+            v = ca * cb if kind.endswith('Mul') else ca + cb if kind.endswith('Add') else ca - cb
+            if 0 <= v < 2 ** 32:
+                return 'constant operands (%d, %d): the result %d fits' % (ca, cb, v)
     if kind in ('assert:overflow:Mul', 'assert:overflow:Add') and len(ops) == 2:
         # (j - 1) * B [+ i]   with j in 1..A, i in 0..B and checked_mul(A, B) known to succeed
         x, y = ops
